@@ -568,6 +568,10 @@ pub fn jobs(tier: Tier, full: bool) -> Vec<Job> {
             vec!["<option>", "A", "<b>", "B", "</option>", "<option selected>"],
             vec!["<div>", "<selectedcontent>", "</div>", "<option selected>", "<i>"],
             vec!["<hr>", "<optgroup>", "<option selected>", "<i>", "x", "<b>"],
+            // a template with contents below the selected option: the mirror holds a clone of it, and the
+            // next selected option replaces (drops) that clone
+            vec!["<option selected>", "<div>", "<template>", "x", "</template>", "</div>"],
+            vec!["<option selected>", "<template>", "<b>", "x", "</template>", "y", "</option>", "<option selected>", "<div>", "<template>", "z", "</template>"],
         ];
         let depth = tier.pick(3, 4);
         for t in tails {
